@@ -1,12 +1,11 @@
-(* C19/Properties.v — the property theorems.  Repaired = /repo HEAD (fixes e92fcd5, de0488c, b498cfb, c73561e, 35c2549
-   committed) PLUS the three open repairs fixes/C19_opt82_cut_fragment.patch, fixes/C19_reply_skip_empty_options.patch,
-   fixes/C19_giaddr_ipv4_only.patch; the full theorems are about it.  Head = /repo HEAD exactly (five fixes in, the three
-   open ones not: cut_fragment absent, addr_opt always emitted, wrap_ip_udp panics on non-IPv4): the correspondence check
-   falls back to it with a KNOWN-FINDING line until the patches are applied, and the three newest _refuted theorems are
-   about it.  Defective = the code before every fix; it only serves the historical _refuted witnesses.  Specification-side definitions (item, enc, wf_pkt, wf_tail, frame4_ok, ...) live in
-   Proofs.v.  A "well-formed" DHCPv4 message is wf_pkt hdr its tl with wf_tail tl: 240 header bytes, pads and complete
-   options in any order, then EITHER the end of the packet (missing END) OR END + arbitrary trailer;
-   C19_decodable_is_wf shows that this is every message the reference decoder can decode. *)
+(* C19/Properties.v — the property theorems.  Coq [variant]: Repaired = /repo HEAD (all nine C19 fixes are committed:
+   e92fcd5, de0488c, b498cfb, c73561e, 35c2549, 703d203, b01cb01, bd61667); the full theorems are about it and the
+   correspondence check compares with it only.  Head = the code before the last three fixes, Defective = the code before
+   every fix: both serve only the historical _refuted witnesses (each says which commit fixed it).  Specification-side
+   definitions (item, enc, wf_pkt, wf_tail, frame4_ok, opt6s, spec_o, ...) live in Proofs.v.  A "well-formed" DHCPv4
+   message is wf_pkt hdr its tl with wf_tail tl: 240 header bytes, pads and complete options in any order, then EITHER the
+   end of the packet (missing END) OR END + arbitrary trailer; C19_decodable_is_wf shows that this is every message the
+   reference decoder can decode, and C19_opt82_replace_any_message needs no such hypothesis at all. *)
 From OV Require Import Common.Base C19.Model C19.Proofs.
 Open Scope N_scope.
 
@@ -668,8 +667,8 @@ Example C19_resolved_long_value_nonvacuous :
 Proof. eexists. eexists. vm_compute. repeat split. Qed.
 Print Assumptions C19_resolved_long_value_nonvacuous.
 
-(* ================================================================ three open findings (audit round 2): repaired behaviour + witnesses *)
-(* (a) fixes/C19_opt82_cut_fragment.patch.  With the cut-off trailing option dropped first, InsertOption82(replace) works
+(* ================================================================ three findings of audit round 2 (fixed in 703d203, b01cb01, bd61667): repaired behaviour + historical witnesses (variant Head = the code before them) *)
+(* (a) 703d203.  With the cut-off trailing option dropped first, InsertOption82(replace) works
    for EVERY client message of at least 240 bytes (bytes only; no decodability hypothesis): the result is decodable,
    carries the relay's option 82 exactly once (last), and the fixed header is untouched *)
 Theorem C19_opt82_replace_any_message : forall pkt d, bytes_ok pkt -> (240 <= length pkt)%nat -> (length d <= 255)%nat ->
@@ -679,7 +678,7 @@ Theorem C19_opt82_replace_any_message : forall pkt d, bytes_ok pkt -> (240 <= le
 Proof. exact opt82_replace_any_message. Qed.
 Print Assumptions C19_opt82_replace_any_message.
 
-(* /repo HEAD: a cut-off last option (60, declared 9 bytes, 4 present) swallows the head of the relay's option 82; what
+(* before 703d203: a cut-off last option (60, declared 9 bytes, 4 present) swallows the head of the relay's option 82; what
    is forwarded decodes fine and contains NO option 82 *)
 Theorem C19_opt82_truncated_swallow_refuted :
   exists pkt d out, bytes_ok pkt /\ (240 <= length pkt)%nat /\ (length d <= 255)%nat /\
@@ -694,14 +693,14 @@ Proof.
 Qed.
 Print Assumptions C19_opt82_truncated_swallow_refuted.
 
-(* (b) fixes/C19_reply_skip_empty_options.patch.  No address-valued option (1, 3, 6, 54) of zero length in the reply,
+(* (b) b01cb01.  No address-valued option (1, 3, 6, 54) of zero length in the reply,
    for all lease parameters and validated raw options *)
 Theorem C19_reply_addr_options_nonempty : forall lease mask sid router dns rt routes extra o, Forall raw_ok extra ->
   In o (resolved_opts lease mask sid router dns rt routes extra) -> In (fst o) [1; 3; 6; 54] -> snd o <> [].
 Proof. exact resolved_addr_options_nonempty. Qed.
 Print Assumptions C19_reply_addr_options_nonempty.
 
-(* /repo HEAD: a DNS list with only an IPv6 entry, an IPv6 router and a nil mask give options 1, 3 and 6 of length 0
+(* before b01cb01: a DNS list with only an IPv6 entry, an IPv6 router and a nil mask give options 1, 3 and 6 of length 0
    (RFC 2132: minimum length 4) *)
 Theorem C19_reply_zero_length_refuted :
   exists f v, build_response_resolved Head 1 None [1;2;3;4;5;6] 5 (Some [10;0;0;2]) (Some (repeat 32 16)) (Some [10;0;0;1])
@@ -716,15 +715,46 @@ Proof.
 Qed.
 Print Assumptions C19_reply_zero_length_refuted.
 
-(* (c) fixes/C19_giaddr_ipv4_only.patch.  WrapIPUDP never panics and never runs out of fuel, for any addresses and any
+(* (c) bd61667.  WrapIPUDP never panics and never runs out of fuel, for any addresses and any
    payload (for non-IPv4 addresses it returns no frame) *)
 Theorem C19_wrap_never_crashes : forall payload src dst, exists f, wrap_ip_udp Repaired payload src dst = Ok f.
 Proof. exact wrap_never_crashes. Qed.
 Print Assumptions C19_wrap_never_crashes.
 
-(* /repo HEAD: an IPv6 giaddr (accepted by net.ParseIP and by the config loader) makes the proxy's reply path panic *)
+(* before bd61667: an IPv6 giaddr (accepted by net.ParseIP and by the config loader) makes the proxy's reply path panic *)
 Theorem C19_wrap_ipv6_giaddr_refuted :
   proxy_reply4 Head (wf_pkt ex_hdr ex_server [255]) (Some (repeat 32 16)) 3600 = Panic /\
   set_giaddr (wf_pkt ex_hdr ex_server [255]) (Some (repeat 32 16)) = wf_pkt ex_hdr ex_server [255].
 Proof. vm_compute. split; reflexivity. Qed.
 Print Assumptions C19_wrap_ipv6_giaddr_refuted.
+
+(* ================================================================ round 4: options next to the rewritten ones *)
+(* RewriteV6Lifetimes touches ONLY options with code 3 (IA_NA), 25 (IA_PD), 5 (IAADDR), 26 (IAPREFIX).  For any message
+   with a well-formed option list — IA_TA (4, no T1/T2), unknown codes, payloads that merely look like an IA, IA inside IA —
+   the option count is kept, every option keeps its code and length, and every option with another code is at the same
+   position with exactly the same bytes. *)
+Theorem C19_v6_lifetimes_other_options_identical : forall v h4 os pref valid, length h4 = 4%nat -> Forall opt6_ok os ->
+  exists os', rewrite_v6_lifetimes v (h4 ++ enc6 os) pref valid = h4 ++ enc6 os' /\ length os' = length os /\
+    (forall i o, nth_error os i = Some o -> lifetime_code (fst o) = false -> nth_error os' i = Some o) /\
+    (forall i o o', nth_error os i = Some o -> nth_error os' i = Some o' -> fst o' = fst o /\ length (snd o') = length (snd o)).
+Proof. exact v6_other_options_identical. Qed.
+Print Assumptions C19_v6_lifetimes_other_options_identical.
+
+(* in particular a message without any of those four codes comes back byte for byte *)
+Theorem C19_v6_lifetimes_identity_without_lifetime_options : forall v h4 os pref valid, length h4 = 4%nat -> Forall opt6_ok os ->
+  Forall (fun o => lifetime_code (fst o) = false) os ->
+  rewrite_v6_lifetimes v (h4 ++ enc6 os) pref valid = h4 ++ enc6 os.
+Proof. exact v6_identity_without_lifetime_options. Qed.
+Print Assumptions C19_v6_lifetimes_identity_without_lifetime_options.
+
+(* an IA_TA carrying an IAADDR (the witness of seeded change C19_r3), an option 4 with an IA_NA-shaped payload and an
+   unknown code: untouched, while the IA_NA next to them is rewritten *)
+Example C19_v6_ia_ta_nonvacuous :
+  let addr := zeros 15 ++ [1] in
+  let ta := (4, [0;0;0;7] ++ opt6 5 (addr ++ [0;0;0;3;0;0;0;4])) in
+  let like := (4, [0;0;0;8; 0;0;0;1; 0;0;0;2] ++ opt6 5 (addr ++ [0;0;0;3;0;0;0;4])) in
+  let na := (3, [0;0;0;9; 0;0;0;1; 0;0;0;2] ++ opt6 5 (addr ++ [0;0;0;3;0;0;0;4])) in
+  rewrite_v6_lifetimes Repaired ([7;1;2;3] ++ enc6 [ta; like; (6403, zeros 30); na]) 100 200 =
+  [7;1;2;3] ++ enc6 [ta; like; (6403, zeros 30); (3, [0;0;0;9; 0;0;0;50; 0;0;0;80] ++ opt6 5 (addr ++ [0;0;0;100;0;0;0;200]))].
+Proof. vm_compute. reflexivity. Qed.
+Print Assumptions C19_v6_ia_ta_nonvacuous.
